@@ -249,6 +249,40 @@ def solveCnf (fuel : Nat) (cnf0 : CNF) (o : Oracle) : Result :=
   let (pr, tr) := unitPropagate (nvars + 2) cnf [] 0
   mainLoop order nvars fuel fuel ⟨cnf, tr, 0, [], o.res⟩ pr
 
+-- ---------------------------------------------------------------- runs without learning (used by `solve_terminates_partial`)
+
+/-- The run from `(s, pr)` learns no non-empty clause within `fuel` iterations: it ends by
+`satisfiable`, or by a conflict whose analysis gives the empty clause (a conflict at level 0).
+Same recursion as `mainLoop`. -/
+def noLearn (vars : List Nat) (nvars af : Nat) : Nat → St → Prop' → Bool
+  | 0, _, _ => true
+  | fuel + 1, s, pr =>
+    match pr with
+    | .outOfFuel => true
+    | .sat => true
+    | .undecided =>
+      let level := s.level + 1
+      let tr := decideVar vars s.tr level
+      let (pr', tr') := unitPropagate (nvars + 2) s.cnf tr level
+      noLearn vars nvars af fuel { s with tr := tr', level := level } pr'
+    | .conflict cid =>
+      match s.cnf[cid]? with
+      | none => false
+      | some c0 =>
+        match analyze af s.cnf s.tr [cid] c0 s.orc with
+        | .error _ => false
+        | .ok (_, clause, _) => clause.isEmpty
+
+/-- `noLearn` for the whole of `solve_cnf` (same set-up as `solveCnf`) -/
+def noLearnRun (fuel : Nat) (cnf0 : CNF) (o : Oracle) : Bool :=
+  let cnf := cnf0.map dedup
+  let vs := varsOf cnf
+  let order := if o.vars.length == vs.length && vs.all o.vars.contains && o.vars.all vs.contains
+               then o.vars else vs
+  let nvars := vs.length
+  let (pr, tr) := unitPropagate (nvars + 2) cnf [] 0
+  noLearn order nvars fuel fuel ⟨cnf, tr, 0, [], o.res⟩ pr
+
 -- ---------------------------------------------------------------- trace checking
 
 /-- First literal of `c1` whose negation occurs in `c2`. -/
@@ -307,6 +341,61 @@ def rebuild : CNF → List (Nat × List Nat) → Option CNF
 def checkProofs (cnf : CNF) (proofs : List (Nat × List Nat)) : Bool :=
   match rebuild (cnf.map dedup) proofs with
   | some c => checkTrace c cnf.length proofs
+  | none => false
+
+-- ---------------------------------------------------------------- replay by `logic.resolution`
+
+/-- `resolution_macro.get_proof_term`: the first pair `(i, j)` — `i` over the first clause, for it
+the first `j` — such that the literals are complementary (after `fixes/C15-4.patch` the positions
+found are used whichever side the positive literal is on). -/
+def findClashAux (d : Clause) : Clause → Nat → Option (Nat × Nat)
+  | [], _ => none
+  | l :: rest, i =>
+    match d.findIdx? (fun m => m == (l.1, !l.2)) with
+    | some j => some (i, j)
+    | none => findClashAux d rest (i + 1)
+
+def findClash (c d : Clause) : Option (Nat × Nat) := findClashAux d c 0
+
+/-- `logic.resolution(pt1, pt2)` on the clauses of the two theorems: the two found literals are
+removed (every copy of them, `fixes/C15-5.patch`), the rest is joined; `disj_norm` sorts and
+removes repetitions (the order is not observable: results are compared as sets).
+`none` = "literal not found". -/
+def macroResolve (c d : Clause) : Option Clause :=
+  match findClash c d with
+  | some (i, j) =>
+    match c[i]?, d[j]? with
+    | some l, some m => some (dedup (c.filter (fun x => x != l) ++ d.filter (fun x => x != m)))
+    | _, _ => none
+  | none => none
+
+def zStep (cnf : CNF) (acc : Option Clause) (j : Nat) : Option Clause :=
+  match acc, cnf[j]? with
+  | some c, some d => macroResolve c d
+  | _, _ => none
+
+/-- one `Resolvent` line `CL: id <= c0 c1 …` of a zChaff trace, or one proof list of
+`sat.solve_cnf`: `pt = clause_pt[c0]; for c in rest: pt = resolution(pt, clause_pt[c])` -/
+def zReplayOne (cnf : CNF) : List Nat → Option Clause
+  | [] => none
+  | i :: rest =>
+    match cnf[i]? with
+    | none => none
+    | some c0 => rest.foldl (zStep cnf) (some c0)
+
+/-- the replay loop of `zChaff.solve` / `proofrec.solve_cnf`: every derived clause is appended
+under the next index (the ids written in the trace are not read) -/
+def zReplay : CNF → List (List Nat) → Option CNF
+  | c, [] => some c
+  | c, p :: rest =>
+    match zReplayOne c p with
+    | some r => zReplay (c ++ [r]) rest
+    | none => none
+
+/-- `proofrec.solve_cnf` after the replay: `assert clause_pts[-1].prop == false` -/
+def proofrecCheck (cnf : CNF) (proofs : List (List Nat)) : Bool :=
+  match zReplay cnf proofs with
+  | some c => c.getLast? == some []
   | none => false
 
 end Holpy.C15
@@ -475,6 +564,11 @@ def nodupB : List Form → Bool
   | [] => true
   | x :: xs => !xs.contains x && nodupB xs
 
+/-- hypotheses of the theorem `encode` returns: the equations `x_g ⟷ …` of all subterms (for an
+atom: `x_g ⟷ atom`) and the formula itself; its conclusion is the CNF -/
+def hypsNamed (names : List Nat) (order : List Form) (f : Form) : List Form :=
+  order.map (fun g => .iff (.atom (varOf names order g)) (rhsOf names order g)) ++ [f]
+
 /-- what the theorems need of the numbering: it lists exactly the subterms of `f`, each once,
 children before parents (`sorted_terms` sorts by size first) -/
 def orderOK (order : List Form) (f : Form) : Bool :=
@@ -493,6 +587,12 @@ def tseitinOrd (f : Form) (extra : List Nat) (o : List Form) : Option CNF :=
   | none => none
 
 def tseitin (f : Form) : Option CNF := tseitinOrd f [] []
+
+/-- hypotheses of `encode`'s theorem (same choice of order and names as `tseitinOrd`) -/
+def tseitinHyps (f : Form) (extra : List Nat) (o : List Form) : Option (List Form) :=
+  match pickOrder f o with
+  | some order => some (hypsNamed (freshNames (f.names ++ extra) order.length) order f)
+  | none => none
 
 /-- the naming before the fix (`x1..xn` regardless of the atoms of `f`) -/
 def tseitinUnfixed (f : Form) (o : List Form) : Option CNF :=
